@@ -264,6 +264,9 @@ func (tc *termCtx) callBase(c *ssa.CallCommon, d int) string {
 		if k, suffix, ok := tc.ff.P.getter(f); ok && k < len(args) {
 			return args[k] + suffix // trivial accessor, e.g. Block.Seq() = .Head.BkSeq
 		}
+		if rt, ok := tc.ff.P.valueHelper(f); ok {
+			return substParams(rt, args) // single-use unexported helper: transparent (extract-function refactors)
+		}
 		return FnName(f) + "(" + strings.Join(args, ", ") + ")"
 	case *ssa.Builtin:
 		return f.Name() + "(" + strings.Join(args, ", ") + ")"
@@ -705,4 +708,141 @@ func (ff *FuncFacts) freeVarTerm(v *ssa.FreeVar) (string, bool) {
 	}
 	freeVarMemo[v] = t
 	return t, true
+}
+
+// ---- single-use helpers -------------------------------------------------------------------
+// An unexported function with exactly one static call site in the module is treated as part of its
+// caller (the result of an extract-function refactor): a value helper's call is rendered as its return
+// term with the arguments substituted, a check helper's success facts are imported at "ok(call)".
+
+var staticCallSites map[*ssa.Function]int
+
+func (p *Program) singleUse(f *ssa.Function) bool {
+	if f == nil || f.Blocks == nil || !InModule(f) || f.Parent() != nil || f.Name() == "" {
+		return false
+	}
+	// functions the rule tables name are anchors, never dissolved into their caller
+	if anchoredName(FnName(f)) {
+		return false
+	}
+	if c := f.Name()[0]; c < 'a' || c > 'z' {
+		return false
+	}
+	if staticCallSites == nil {
+		staticCallSites = map[*ssa.Function]int{}
+		for _, g := range p.ModFns {
+			for _, b := range g.Blocks {
+				for _, in := range b.Instrs {
+					if ci, ok := in.(ssa.CallInstruction); ok {
+						if cal := ci.Common().StaticCallee(); cal != nil {
+							staticCallSites[cal]++
+						}
+					}
+					// a function used as a value is not single-use
+					for _, op := range in.Operands(nil) {
+						if op != nil && *op != nil {
+							if fv, ok := (*op).(*ssa.Function); ok {
+								if ci, isCall := in.(ssa.CallInstruction); !isCall || ci.Common().Value != fv {
+									staticCallSites[fv] += 2
+								}
+							}
+						}
+					}
+				}
+			}
+		}
+	}
+	return staticCallSites[f] == 1
+}
+
+var helperMemo = map[*ssa.Function]string{}
+var helperBusy = map[*ssa.Function]bool{}
+
+func cleanHelperTerm(t string) bool {
+	return t != "" && len(t) < 500 && !strings.Contains(t, "…") && !strings.Contains(t, "local:") && !strings.Contains(t, "var:") && !strings.Contains(t, "^") && !strings.Contains(t, "↺")
+}
+
+// valueHelper: f is a single-use helper with one result whose every return has the same clean term.
+func (p *Program) valueHelper(f *ssa.Function) (string, bool) {
+	if t, ok := helperMemo[f]; ok {
+		return t, t != ""
+	}
+	helperMemo[f] = ""
+	if !p.singleUse(f) || f.Signature.Results().Len() != 1 || helperBusy[f] {
+		return "", false
+	}
+	helperBusy[f] = true
+	defer delete(helperBusy, f)
+	ff := p.Facts(f)
+	rt := ""
+	for _, b := range f.Blocks {
+		if ret, ok := b.Instrs[len(b.Instrs)-1].(*ssa.Return); ok {
+			t := ff.Term(ret.Results[0])
+			if rt != "" && rt != t {
+				return "", false
+			}
+			rt = t
+		}
+	}
+	if !cleanHelperTerm(rt) {
+		return "", false
+	}
+	helperMemo[f] = rt
+	return rt, true
+}
+
+var substRe = regexp.MustCompile(`\$(\d+)`)
+
+// substParams replaces the callee's parameter tokens $k by the caller's argument terms.
+func substParams(t string, args []string) string {
+	// leave "$^k" (a captured term's outer parameter) alone: it never matches \$\d
+	return substRe.ReplaceAllStringFunc(t, func(m string) string {
+		var k int
+		fmt.Sscanf(m[1:], "%d", &k)
+		if k < len(args) {
+			return args[k]
+		}
+		return m
+	})
+}
+
+// checkHelperFacts: atoms (in the callee's own $k terms) that hold at every success exit of a single-use
+// helper whose last result is an error.
+var checkHelperMemo = map[*ssa.Function][]string{}
+
+func (p *Program) checkHelperFacts(f *ssa.Function) []string {
+	if fs, ok := checkHelperMemo[f]; ok {
+		return fs
+	}
+	checkHelperMemo[f] = nil
+	res := f.Signature.Results()
+	if !p.singleUse(f) || res.Len() == 0 || !isErrorType(res.At(res.Len()-1).Type()) || helperBusy[f] {
+		return nil
+	}
+	helperBusy[f] = true
+	defer delete(helperBusy, f)
+	ff := p.Facts(f)
+	exits, facts := ff.SuccessFacts()
+	if len(exits) == 0 {
+		return nil
+	}
+	count := map[string]int{}
+	for _, fs := range facts {
+		seen := map[string]bool{}
+		for _, a := range fs {
+			if !seen[a] {
+				seen[a] = true
+				count[a]++
+			}
+		}
+	}
+	var out []string
+	for a, n := range count {
+		if n == len(exits) && cleanHelperTerm(a) {
+			out = append(out, a)
+		}
+	}
+	sort.Strings(out)
+	checkHelperMemo[f] = out
+	return out
 }
